@@ -40,3 +40,4 @@ import jobs_c09  # noqa: E402,F401
 import jobs_c15  # noqa: E402,F401
 import jobs_c13  # noqa: E402,F401
 import jobs_c05  # noqa: E402,F401
+import jobs_c14  # noqa: E402,F401
